@@ -53,6 +53,37 @@ Theorem C08_update_online_untouched : forall s tau i p t,
 Proof. exact (fun s tau i p t => conj (update_keeps_online s tau) (update_writes_polyak s tau i p t)). Qed.
 Print Assumptions C08_update_online_untouched.
 
+(* ---- what happens AT an update instant and between two of them (unit = one vectorised env step for DQN, one gradient
+        step otherwise; its flag is the cadence condition of the theorems below) ----
+   flag set: every target parameter becomes polyak(configured tau) of its online parameter and every target running
+   statistic becomes a COPY of the online one (the regenerated coefficient of the second polyak_update call is 1.0),
+   for DQN, SAC and both TD3/DDPG pairs; flag not set: the targets are not written *)
+Theorem C08_update_instant : forall tau s np ns i,
+  let steps := [unit_step (dqn_param_tau tau) (dqn_bn_tau tau); unit_step (sac_param_tau tau) (sac_bn_tau tau);
+                unit_step (td3_critic_param_tau tau) (td3_critic_bn_tau tau); unit_step (td3_actor_param_tau tau) (td3_actor_bn_tau tau)] in
+  Forall (fun step =>
+    (tg_params (step s (np, ns, false)) = tg_params s /\ tg_stats (step s (np, ns, false)) = tg_stats s) /\
+    on_params (step s (np, ns, true)) = np /\ on_stats (step s (np, ns, true)) = ns /\
+    (forall p t, length np = length (tg_params s) -> nth_error np i = Some p -> nth_error (tg_params s) i = Some t ->
+       exists x, nth_error (tg_params (step s (np, ns, true))) i = Some x /\ (x == polyak tau p t)%Q) /\
+    (forall p t, length ns = length (tg_stats s) -> nth_error ns i = Some p -> nth_error (tg_stats s) i = Some t ->
+       exists x, nth_error (tg_stats (step s (np, ns, true))) i = Some x /\ (x == p)%Q)) steps.
+Proof.
+  exact (fun tau s np ns i =>
+    let one := fun (pt st : Q) (Hs : (st == 1)%Q) =>
+      match unit_update pt st s np ns i with
+      | conj A (conj B (conj C D)) => conj (unit_no_update pt st s np ns) (conj A (conj B (conj C (fun p t => D p t Hs))))
+      end in
+    Forall_cons _ (one tau 1%Q (Qeq_refl 1)) (Forall_cons _ (one tau 1%Q (Qeq_refl 1))
+      (Forall_cons _ (one tau 1%Q (Qeq_refl 1)) (Forall_cons _ (one tau 1%Q (Qeq_refl 1)) (Forall_nil _))))).
+Qed.
+Print Assumptions C08_update_instant.
+
+Theorem C08_no_write_between_updates : forall ptau stau us s, forallb (fun u => negb (snd u)) us = true ->
+  tg_params (units_run ptau stau s us) = tg_params s /\ tg_stats (units_run ptau stau s us) = tg_stats s.
+Proof. exact units_no_update. Qed.
+Print Assumptions C08_no_write_between_updates.
+
 Local Open Scope Z_scope.
 
 (* ---- cadence: DQN ---- *)
